@@ -554,3 +554,5 @@ MUTANTS = [
             raise nfc.clf.TransmissionError(error)
         if frame[0] != 0xD4""")], None, 'C19-R4'),
 ]
+
+EXPLANATION += ' Round 5: the idle delay of the run loops derives from the local LTO or a constant, never from the peer LTO; the service discovery MIU budget (C10-R1) is an obligation of this check (C19-R5).'
